@@ -93,3 +93,8 @@ def finding_key(entry, sc):
     if entry[1] in ("offered command accepted later than Bacc", "offered command never accepted") and len(entry) >= 7:
         return "%s|bank served %s other port(s) meanwhile" % (entry[1], "exactly one" if entry[6] == 1 else str(entry[6]))
     return str(entry[1])
+
+
+def shrink(sc):
+    from .corecommon import shrink_candidates
+    return shrink_candidates(sc)
